@@ -103,9 +103,17 @@ func (fx *FnCtx) execCall(st *State, pc *Term, site ssa.Instruction, call *ssa.C
 	return Value{}
 }
 
+// unknownFuncCall: a call through a function value that cannot be resolved (a field or parameter of
+// function type). Nothing is known about what it does, so the call must be unreachable under the
+// contract: an obligation "the path to this call is infeasible" is generated (it fails when the
+// contract allows the call), and the path ends here.
 func (fx *FnCtx) unknownFuncCall(st *State, pc *Term, call *ssa.CallCommon, rt types.Type) Value {
-	fx.fail("call through a function value that is not statically known")
-	return Value{}
+	fx.safety("dyncall", pc, False, "call through a function value that is not known statically is unreachable under the contract")
+	v, facts := fx.tc.FreshValue(rt, "dyncall")
+	for _, f := range facts {
+		fx.assume(f)
+	}
+	return v
 }
 
 func (fx *FnCtx) callFunction(st *State, pc *Term, f *ssa.Function, bindings []Value, args []Value, rt types.Type) Value {
@@ -1431,12 +1439,17 @@ func (fx *FnCtx) sortModel(st *State, pc *Term, name string, call *ssa.CallCommo
 	if !ok {
 		fx.fail("sort.%s: argument type %v is not a slice type (outside the model)", name, mi.X.Type())
 	}
-	if name == "IsSorted" {
-		res, _ := fx.tc.FreshValue(rt, "issorted")
-		return res
-	}
 	x := fx.val(mi.X)
 	tc := fx.tc
+	if name == "IsSorted" {
+		res, _ := fx.tc.FreshValue(rt, "issorted")
+		// a true answer means the elements are in order (for a Less that is a strict weak order,
+		// which is assumed: no pair of a later and an earlier element with later < earlier)
+		if so := fx.sortedByLess(st, pc, mi, x); so != nil {
+			fx.assume(Implies(And(pc, res.L[0]), so))
+		}
+		return res
+	}
 	lo, hi := x.L[1], tc.IdxAdd(x.L[1], x.L[2])
 	fx.frameCheckRange(st, pc, sl.Elem(), x.L[0], lo, hi)
 	leaves := tc.Layout(sl.Elem()).Leaves
@@ -1467,7 +1480,94 @@ func (fx *FnCtx) sortModel(st *State, pc *Term, name string, call *ssa.CallCommo
 		pats = append(pats, []*Term{firstOld})
 	}
 	fx.assume(Implies(pc, Forall([]*Term{k}, body, pats...)))
+	// ... and every element of the new contents is one of the old ones
+	{
+		qf := DeclareUF(fmt.Sprintf("sortperminv_%d", sortPermN), []*Sort{tc.IdxSort()}, tc.IdxSort())
+		m := BoundVar("m", tc.IdxSort())
+		qm := qf.App(m)
+		cj := []*Term{tc.IdxLe(tc.IdxNum(0), qm), tc.IdxLt(qm, x.L[2])}
+		var firstNew *Term
+		for i, lf := range leaves {
+			newArr := Select(fx.Heap(st, arrHeapName(sl.Elem(), lf), lf), x.L[0])
+			nw := Select(newArr, tc.IdxAdd(x.L[1], m))
+			if firstNew == nil {
+				firstNew = nw
+			}
+			cj = append(cj, Eq(nw, Select(oldArrs[i], tc.IdxAdd(x.L[1], qm))))
+		}
+		b2 := Implies(And(tc.IdxLe(tc.IdxNum(0), m), tc.IdxLt(m, x.L[2])), And(cj...))
+		p2 := [][]*Term{{qm}}
+		if firstNew != nil {
+			p2 = append(p2, []*Term{firstNew})
+		}
+		fx.assume(Implies(pc, Forall([]*Term{m}, b2, p2...)))
+	}
+	// and the new contents are in order
+	if so := fx.sortedByLess(st, pc, mi, x); so != nil {
+		fx.assume(Implies(pc, so))
+	}
 	return Value{T: rt}
+}
+
+// sortedByLess states, for the slice x converted to a sort.Interface at mi, that no later element is
+// Less than an earlier one in state st: forall i < j :: !x.Less(j, i). The Less method of the
+// slice type is executed symbolically, first at two arbitrary indices (which generates its safety
+// obligations) and then at the bound variables (obligations and facts of that run are dropped). Nil
+// when the type has no Less method with a body.
+func (fx *FnCtx) sortedByLess(st *State, pc *Term, mi *ssa.MakeInterface, x Value) *Term {
+	tc := fx.tc
+	ms := fx.V.prog.MethodSets.MethodSet(mi.X.Type())
+	var less *ssa.Function
+	for i := 0; i < ms.Len(); i++ {
+		if ms.At(i).Obj().Name() == "Less" {
+			less = fx.V.prog.MethodValue(ms.At(i))
+		}
+	}
+	if less == nil || less.Blocks == nil {
+		return nil
+	}
+	intT := types.Typ[types.Int]
+	boolT := types.Typ[types.Bool]
+	n := x.L[2]
+	recv := x
+	recv.T = mi.X.Type()
+	run := func(a, b *Term, cond *Term) *Term {
+		r := fx.inlineCall(st.Clone(), And(pc, cond), less, fx.V.contractFor(less), nil,
+			[]Value{recv, {T: intT, L: []*Term{a}}, {T: intT, L: []*Term{b}}}, boolT)
+		return r.L[0]
+	}
+	inRange := func(a, b *Term) *Term {
+		return And(tc.IdxLe(tc.IdxNum(0), a), tc.IdxLt(a, b), tc.IdxLt(b, n))
+	}
+	g1, f1 := tc.FreshValue(intT, "sortany")
+	g2, f2 := tc.FreshValue(intT, "sortany")
+	for _, f := range append(f1, f2...) {
+		fx.assume(f)
+	}
+	a1, a2 := fx.toIdx(g1, intT), fx.toIdx(g2, intT)
+	run(a2, a1, inRange(a1, a2))
+	// at the bound variables: keep only the value
+	nObl, nAss, nNotes, nAx := len(fx.root.obls), len(fx.root.assumes), len(fx.root.assumeNotes), len(fx.root.axioms)
+	saveCnt := map[string]int{}
+	for k, v := range fx.root.counters {
+		saveCnt[k] = v
+	}
+	i := BoundVar("si", tc.IdxSort())
+	j := BoundVar("sj", tc.IdxSort())
+	lt := run(j, i, inRange(i, j))
+	fx.root.obls = fx.root.obls[:nObl]
+	fx.root.assumes = fx.root.assumes[:nAss]
+	fx.root.assumeNotes = fx.root.assumeNotes[:nNotes]
+	kept := fx.root.axioms[:nAx]
+	for _, ax := range fx.root.axioms[nAx:] {
+		if !ax.hasBnd {
+			kept = append(kept, ax)
+		}
+	}
+	fx.root.axioms = kept
+	fx.root.counters = saveCnt
+	fx.root.noteOnce("assumed: the Less method given to sort." + "Sort/IsSorted is a strict weak order (sorted means: no later element is Less than an earlier one)")
+	return Forall([]*Term{i, j}, Implies(inRange(i, j), Not(lt)))
 }
 
 var sortPermN int
